@@ -13,7 +13,7 @@ LEVEL_NOTE = ("code and specification apply the same trusted primitive (binascii
 DESIGN_REF = "DESIGN.md 6 (C13)"
 FUNCTIONS = ["multidecoder.decoders.hex.find_hex", "multidecoder.decoders.base64.find_atob", "multidecoder.decoders.base64.find_Base64Decode",
              "multidecoder.decoders.base64.find_base64", "multidecoder.xor_helper.apply_xor_key", "multidecoder.xor_helper.get_xorkey",
-             "multidecoder.decoders.base64.find_FromBase64String", "multidecoder.decoders.hex.find_FromHexString", "multidecoder.decoders.base64.pad_base64"]
+             "multidecoder.decoders.base64.find_FromBase64String", "multidecoder.decoders.hex.find_FromHexString", "multidecoder.decoders.base64.pad_base64", "multidecoder.decoders.powershell.find_powershell_bytes"]
 TRUSTED = [DC.NOT_UNDER_CONTRACT]
 BOUNDED = [O.bounded("C13", O.cases_C13)]
 
@@ -65,6 +65,35 @@ def bounded_xor(tier, seed):
 
 
 BOUNDED.append(bounded_xor)
+
+
+def bounded_bytes_key(tier, seed):
+    """PowerShell byte arrays (> 500 elements) next to an explicit single-byte -bxor key: every array node carries ITS OWN bytes XORed with the key."""
+    import random
+
+    from multidecoder.decoders.powershell import find_powershell_bytes
+
+    rng = random.Random(seed)
+    failures, n = [], 0
+    for narr in (1, 2, 3):
+        for key in (1, 35, 255):
+            arrays = [bytes(rng.randrange(256) for _ in range(rng.randint(501, 560))) for _ in range(narr)]
+            data = b"\n".join(b"$a%d = " % i + b",".join(str(b).encode() for b in arr) for i, arr in enumerate(arrays)) + b"\n$x -bxor %d" % key
+            n += 1
+            try:
+                hits = find_powershell_bytes(data)
+            except Exception as e:  # noqa: BLE001
+                failures.append({"id": f"find_powershell_bytes raises {type(e).__name__}", "function": "multidecoder.decoders.powershell.find_powershell_bytes", "obligation": "safe", "case": {"psbytes": data.hex()}, "observed": f"{type(e).__name__}: {e}"})
+                continue
+            ok = [h.value for h in hits] == arrays and all(len(h.children) == 1 and h.children[0].value == bytes(b ^ key for b in h.value) and (h.children[0].start, h.children[0].end) == (0, len(h.value))
+                                                             and h.children[0].parent is h for h in hits)
+            if not ok and len(failures) < 3:
+                failures.append({"id": f"byte arrays with key {key}", "function": "multidecoder.decoders.powershell.find_powershell_bytes", "obligation": "post", "case": {"psbytes": data.hex()},
+                                 "observed": f"{narr} arrays of lengths {[len(a) for a in arrays]}, key {key}: nodes {[(len(h.value), [(c.start, c.end, len(c.value), c.value == bytes(b ^ key for b in h.value)) for c in h.children]) for h in hits]!r}"})
+    return {"evaluations": n, "distinct_nontrivial": n, "scope": "1-3 byte arrays of 501-560 elements in one text x explicit keys 1, 35, 255", "failures": failures, "samples": [{"arrays": 2, "key": 35}]}
+
+
+BOUNDED.append(bounded_bytes_key)
 
 
 def bounded_multibyte_xor(tier, seed):
